@@ -135,9 +135,9 @@ Qed.
 Lemma apply_plan_bnd lim s plan : bnd lim s -> bnd lim (apply_plan lim s plan).
 Proof.
   intros H. unfold apply_plan. apply fold_left_inv; [exact H|].
-  intros a [e o] Ha. cbn [fst snd].
-  pose proof (cancel_want_bnd lim a e Ha) as H1.
-  destruct (cancel_want a e) as [s1 had]. cbn [fst] in H1.
+  intros a [e o] Ha. cbn [fst snd]. cbn zeta.
+  pose proof (cancel_want_bnd lim a (fst e) Ha) as H1.
+  destruct (cancel_want a (fst e)) as [s1 had]. cbn [fst] in H1.
   apply ledger_wants_bnd. destruct had; exact H1.
 Qed.
 
